@@ -41,6 +41,9 @@ pub fn h64<T: Hash + ?Sized>(t: &T) -> u64 {
     h.finish()
 }
 
+/// first index of the real-network lane's cases
+pub const LANE_BASE: u64 = 1_000_000;
+
 pub fn case_rng(seed: u64, id: &str, index: u64) -> StdRng {
     StdRng::seed_from_u64(h64(&(seed, id, index)))
 }
@@ -164,6 +167,10 @@ pub trait Check: Sync {
     fn assumptions(&self) -> Vec<String>;
     /// Number of cases for the tier (cases are distributed round-robin over shards).
     fn cases(&self, tier: Tier) -> u64;
+    /// Cases of the real-network lane: indices `LANE_BASE + j`, run first in their shard (round-robin over shards).
+    fn lane_cases(&self, _tier: Tier) -> u64 {
+        0
+    }
     /// Wall-clock budget for a shard, after which it stops taking new cases (not a verdict).
     fn shard_budget(&self, tier: Tier) -> Duration {
         tier.pick(Duration::from_secs(100), Duration::from_secs(900))
@@ -263,7 +270,10 @@ pub fn run_shard(check: &dyn Check, o: &Opts) -> i32 {
         .ok();
     let indices: Box<dyn Iterator<Item = u64>> = match o.only_index {
         Some(i) => Box::new(std::iter::once(i)),
-        None => Box::new((0..total).filter(move |i| (*i as usize) % nshards == shard)),
+        None => {
+            let lane = if o.cases_override.is_some() { 0 } else { check.lane_cases(o.tier) };
+            Box::new((0..lane).filter(move |j| (*j as usize) % nshards == shard).map(|j| LANE_BASE + j).chain((0..total).filter(move |i| (*i as usize) % nshards == shard)))
+        }
     };
     for index in indices {
         if o.only_index.is_none() && start.elapsed() > budget {
@@ -544,7 +554,7 @@ fn finish(check: &dyn Check, o: &Opts, merged: Report, mut inconclusive: Vec<Str
     let distinct = merged.distinct.len() as u64;
     // On a slow or loaded machine shards stop taking new cases when their time budget is used up (that is
     // not a verdict); the coverage floor is then scaled to the share of the planned cases that did run.
-    let planned = o.cases_override.unwrap_or_else(|| check.cases(o.tier)).max(1);
+    let planned = o.cases_override.unwrap_or_else(|| check.cases(o.tier) + check.lane_cases(o.tier)).max(1);
     let ran = merged.cases_run.min(planned);
     let floor = ((check.min_nontrivial(o.tier) as u128 * ran as u128) / planned as u128) as u64;
     let floor = floor.max(check.min_nontrivial(o.tier).min(2));
